@@ -93,3 +93,22 @@ Theorem C15_instances_agree_abc_hess : forall (x a : Q) (z : Z) (c xl xh : Q),
 Proof. exact hom_abc_hess. Qed.
 Theorem C15_instances_agree_dot : forall a b : list Q, Q2R (dot (A:=Q) a b) = dot (A:=R) (map Q2R a) (map Q2R b).
 Proof. exact hom_dot. Qed.
+
+(* ---- tie T at class level: the cost methods regenerated from the NumPy source (Gen/Classes.v) are the model costs ---- *)
+From DK.Gen Require Import Classes.
+From DK.Proofs Require Import GenClasses.
+Theorem C15_source_device_cost : forall n (s p : list R), Device_cost (A:=R) n s p = dev_cost s p.
+Proof. exact gen_device_cost. Qed.
+Theorem C15_source_cdevice_cost : forall n a b (s p : list R), CDevice_cost (A:=R) n a b s p = cdev_cost a b s p.
+Proof. exact gen_cdevice_cost. Qed.
+Theorem C15_source_pvdevice_cost : forall n (s p : list R), vsum (PVDevice_costv (A:=R) n s p) = dev_cost s p.
+Proof. exact gen_pvdevice_costv. Qed.
+Theorem C15_source_idevice_cost : forall n a b c bnd (s p : list R), List.length s = n -> List.length p = n -> (0 < n)%nat ->
+  IDevice_cost (A:=R) n a b c bnd s p = idev_cost a b c bnd s p.
+Proof. exact gen_idevice_cost. Qed.
+Theorem C15_source_idevice2_cost : forall n pl ph bnd (s p : list R), List.length s = n -> List.length p = n -> (0 < n)%nat ->
+  IDevice2_cost (A:=R) n pl ph bnd s p = idev2_cost pl ph bnd s p.
+Proof. exact gen_idevice2_cost. Qed.
+Theorem C15_source_sdevice_cost : forall n c1 c2 c3 cap dep st e su (s p : list R), List.length s = n -> List.length p = n -> (0 < n)%nat ->
+  SDevice_cost (A:=R) n c1 c2 c3 cap dep st e su s p = sdev_cost (sq_of c1 c2 c3 cap dep st e su) s p.
+Proof. exact gen_sdevice_cost. Qed.
